@@ -1,9 +1,141 @@
 import LinfaSpec.Model.Proto
+import LinfaSpec.Model.Scalar
+import LinfaSpec.Model.Incremental
 
 namespace LinfaSpec.Drv.C15
-open LinfaSpec.Proto
+open LinfaSpec.Proto LinfaSpec.Incremental
 
-/-- stub: replaced when the property's model lands -/
-def handle (_toks : List String) : String := "bad-op"
+def sortByLabel {β : Type} (st : List (Nat × β)) : List (Nat × β) :=
+  (st.toArray.qsort (fun a b => a.1 < b.1)).toList
+
+def tF (x : Float) : String := "~" ++ showF64c x
+
+/-- batches from `x=` (batch | row ; value ,) and `y=` (batch ; label ,) -/
+def parseHist (toks : List String) : Option (List (Batch Float)) := do
+  let xs ← (arg toks "x").bind (parseList3 parseF64)
+  let ys ← argNats2 toks "y"
+  if xs.length != ys.length then none else
+  let bs := (xs.zip ys).map fun (bx, bl) => if bx.length != bl.length then none else some (bx.zip bl)
+  bs.mapM id
+
+def showG (st : GState Float) : String :=
+  let parts := (sortByLabel st).map fun (c, i) =>
+    s!"c={c}/n={i.count}/pr={showF64c i.prior}/th={showList showF64c i.theta}/sg={showList tF i.sigma}"
+  if parts.isEmpty then "-" else ";".intercalate parts
+
+def showM (st : MState Float) : String :=
+  let parts := (sortByLabel st).map fun (c, i) =>
+    s!"c={c}/n={i.count}/pr={showF64c i.prior}/fc={showList showF64c i.fcount}/lp={showList tF i.flogp}"
+  if parts.isEmpty then "-" else ";".intercalate parts
+
+/-- states after every batch; `none` when the real code returns an error (guard) -/
+def scanHist {σ : Type} (step : σ → Batch Float → σ) (p : Nat) (init : σ) :
+    List (Batch Float) → Option (List σ)
+  | [] => some []
+  | b :: rest =>
+    if nbGuard p b then
+      let s := step init b
+      (scanHist step p s rest).map (s :: ·)
+    else none
+
+def handleGnb (toks : List String) : Option String := do
+  let vs ← argF64 toks "vs"; let p ← argNat toks "p"
+  let hist ← parseHist toks
+  match scanHist (gnbStep vs p) p [] hist with
+  | none => some "err"
+  | some sts => some ("ok " ++ " ".intercalate (sts.map showG))
+
+def handleMnb (toks : List String) : Option String := do
+  let a ← argF64 toks "alpha"; let p ← argNat toks "p"
+  let hist ← parseHist toks
+  match scanHist (mnbStep a p) p [] hist with
+  | none => some "err"
+  | some sts => some ("ok " ++ " ".intercalate (sts.map showM))
+
+def twoPi : Float := Float.ofBits 0x401921FB54442D18
+def inf : Float := Float.ofBits 0x7FF0000000000000
+
+def predLine {ι : Type} (jll : ι → List Float → Float) (st : List (Nat × ι)) (qs : List (List Float)) : String :=
+  let st := sortByLabel st
+  let preds := qs.map fun x => ((nbPredict jll st x).map toString).getD "none"
+  let margin := qs.foldl (fun m x =>
+    match scoreMargin (st.map fun ci => (ci.1, jll ci.2 x)) with
+    | none => m
+    | some g => if g < m then g else m) inf
+  s!"ok pred={",".intercalate preds} margin={tF margin}"
+
+def handleGnbPred (toks : List String) : Option String := do
+  let vs ← argF64 toks "vs"; let p ← argNat toks "p"
+  let hist ← parseHist toks
+  let qs ← argF64s2 toks "q"
+  match scanHist (gnbStep vs p) p [] hist with
+  | none => some "err"
+  | some sts => some (predLine (gnbJll twoPi 0.5) (sts.getLastD []) qs)
+
+def handleMnbPred (toks : List String) : Option String := do
+  let a ← argF64 toks "alpha"; let p ← argNat toks "p"
+  let hist ← parseHist toks
+  let qs ← argF64s2 toks "q"
+  match scanHist (mnbStep a p) p [] hist with
+  | none => some "err"
+  | some sts => some (predLine mnbJll (sts.getLastD []) qs)
+
+def handleKm (toks : List String) : Option String := do
+  let tol ← argF64 toks "tol"
+  let c0 ← argF64s2 toks "c0"
+  let xs ← (arg toks "x").bind (parseList3 parseF64)
+  if c0.isEmpty then none else
+  let init : KState Float := { centroids := c0, counts := c0.map fun _ => 0 }
+  let rs := kmRun tol init xs
+  let parts := rs.map fun (s, conv) =>
+    s!"cs={showList2 showF64c s.centroids}/cnt={showList showF64c s.counts}/conv={if conv then 1 else 0}"
+  some ("ok " ++ " ".intercalate parts)
+
+def parseHp (toks : List String) : Option (FtrlHp Float) := do
+  match ← argF64s toks "hp" with
+  | [a, b, l1, l2] => some ⟨a, b, l1, l2⟩
+  | _ => none
+
+def showF (hp : FtrlHp Float) (s : FState Float) : String :=
+  s!"z={showList tF s.z}/n={showList tF s.n}/w={showList tF (ftrlWeights hp s)}"
+
+/-- `Ftrl::update` with externally supplied probabilities (already `f32` values) -/
+def handleFtrlUpdate (toks : List String) : Option String := do
+  let hp ← parseHp toks
+  let z ← argF64s toks "z"; let n ← argF64s toks "n"
+  let probs ← argF64s toks "probs"
+  let xs ← argF64s2 toks "x"
+  let ys ← argNats toks "y"
+  if z.length != n.length || probs.length != xs.length || ys.length != xs.length then none else
+  let st : FState Float := ⟨z, n⟩
+  let g := ftrlGradient z.length probs xs (ys.map (· != 0))
+  some ("ok " ++ showF hp (ftrlUpdate hp st g))
+
+def r32 (v : Float) : Float := v.toFloat32.toFloat
+
+def handleFtrlFit (toks : List String) : Option String := do
+  let hp ← parseHp toks
+  let z0 ← argF64s toks "z0"
+  let xs ← (arg toks "x").bind (parseList3 parseF64)
+  let ys ← argNats2 toks "y"
+  if xs.length != ys.length then none else
+  let p := z0.length
+  let init : FState Float := ⟨z0, z0.map fun _ => 0⟩
+  let (_, outs) := (xs.zip ys).foldl (fun (acc : FState Float × List String) b =>
+    let s := ftrlStep 35.0 r32 hp p acc.1 (b.1, b.2.map (· != 0))
+    (s, acc.2 ++ [showF hp s])) (init, [])
+  some ("ok " ++ " ".intercalate outs)
+
+def handle (toks : List String) : String :=
+  let r := match toks with
+    | "gnb" :: rest => handleGnb rest
+    | "mnb" :: rest => handleMnb rest
+    | "gnb_pred" :: rest => handleGnbPred rest
+    | "mnb_pred" :: rest => handleMnbPred rest
+    | "km" :: rest => handleKm rest
+    | "ftrl_update" :: rest => handleFtrlUpdate rest
+    | "ftrl_fit" :: rest => handleFtrlFit rest
+    | _ => none
+  r.getD "bad-op"
 
 end LinfaSpec.Drv.C15
